@@ -12,6 +12,7 @@ SCRIPTS = {
     'malt.pyct.static_analysis.liveness.Analyzer.visit_node': ('bounded/rt_liveness.py', ['0', 'quick']),
     'lemma.C07.liveness_visit_node_refines_abstract': ('bounded/rt_liveness.py', ['0', 'quick']),
 }
+SCRIPTS['malt.pyct.naming.Namer.new_symbol'] = ('bounded/rt_namer.py', ['0', 'quick'])
 for _f in ('_get_block_vars', '_get_block_basic_vars', '_get_block_composite_vars'):
   SCRIPTS['malt.converters.control_flow.ControlFlowTransformer.' + _f] = ('bounded/rt_blockvars.py', ['0', 'quick'])
 for _m in ('__init__', 'as_tuple', '__eq__', '__hash__', 'uses', 'call_options'):
